@@ -58,7 +58,8 @@ def st_case(tier):
         if dut in ("axil_sram", "axil2wb", "axil2csr", "wb2axil"):
             dw = draw(st.sampled_from([32, 32, 64])) if dut != "axil2csr" else draw(st.sampled_from([8, 32]))
             c["dw"] = dw
-            c["base"] = draw(st.sampled_from([0, 0, 0x1000, 0x40000000])) if dut in ("axil2wb", "wb2axil") else 0
+            # base addresses incl. ones that are not aligned on the window (the bridges subtract the base)
+            c["base"] = draw(st.sampled_from([0, 0, 0x1000, 0x40000000, 0x20, 0x50, 0x1010])) if dut in ("axil2wb", "wb2axil") else 0
             c["wb_addressing"] = draw(st.sampled_from(["word", "byte"])) if dut in ("axil2wb", "wb2axil") else "word"
             c["ops"] = st_ops(draw, dw // 8, window, c["base"], nmax, full_strb_only=(dut == "axil2csr"))
         else:
